@@ -116,6 +116,11 @@ func coqValue(v interface{}) string {
 		return "(VKw " + str(string(v)) + ")"
 	case pr.Color:
 		return "(VColor " + coqColor(pa.Color(v)) + ")"
+	case pr.IntString:
+		if v.String != "" {
+			return "(VKw " + str(v.String) + ")"
+		}
+		return "(VInt " + vlib.Z(v.Int) + ")"
 	default:
 		return "(VOther " + vlib.Bytes(fmt.Sprintf("%T %v", v, v)) + ")"
 	}
